@@ -578,7 +578,9 @@ def rule_for(itype, cellname, entity_ct, md, argument_elements, integral_element
         return pts, np.full(pts.shape[0], vol / pts.shape[0]), "vertex"
     pt = basix.PolysetType.standard
     for e in argument_elements:
-        pt = basix.polyset_superset(entity_ct, pt, e.polyset_type) if itype == "cell" else pt
+        # macro ("iso") elements are piecewise polynomials on sub-cells; their traces on facets are piecewise on sub-facets,
+        # so the composite rule is the right one on every integration entity
+        pt = basix.polyset_superset(entity_ct, pt, e.polyset_type)
     qt = basix.quadrature.string_to_type(scheme)
     if sum_factorization and itype == "cell" and cellname in ("quadrilateral", "hexahedron"):
         p1, w1 = basix.make_quadrature(basix.CellType.interval, deg, rule=qt, polyset_type=pt)
